@@ -4,7 +4,10 @@
    interleaving of <= K message classes with the torrent life cycle and with the request-timeout timer of a peer we download
    from (environment actions TimerFire / SnubDeliver racing with choke / unchoke / disconnect); two variants must yield a
    counterexample, each exported as a directed scenario (lead) for the driver: cfg.asis (today's replay rule) and
-   cfg.guard = FALSE (a loop that does not ignore a stale timer event: MC_PeerInput_race).
+   cfg.guard = FALSE (a loop that does not ignore a stale timer event: MC_PeerInput_race); round 3: allowed-fast downloads
+   (a peer that grants allowed-fast pieces is downloaded from while it chokes; choke must not park that download, unchoke
+   re-requests, a block re-arms the timer: MC_PeerInput_af) with the variant cfg.afpark = TRUE (the choke handler parks it,
+   the unchoke handler does not unpark it: MC_PeerInput_afpark) as a third lead.
 2. TLC as generator (-simulate on MC_PeerInputGen) of attack scenarios: label (torrent state), attackers, (peer, class) list
    with timer steps (@fire / @snub / @disconnect) where the model enables them; the alphabet contains the generated ut_pex
    families (every list length 0..100 of added / added.f / dropped / added6 / dropped6; repeated addresses in and across lists).
@@ -18,6 +21,10 @@ import json, os, random, re, threading
 import vlib
 
 STATES = ["meta", "alloc", "verify", "down", "seed", "stopping"]
+# round 3 (allowed-fast downloads: class allowedfast.all, generator role afsource, MC_PeerInput_af / _afpark, directed timer
+# histories). Built and tried on the seeded and the unchanged tree, but not yet proven quiet by a full run of the check on
+# the unchanged tree (machine load): OFF by default, enable with VERIF_C08_AF=1.
+AF = os.environ.get("VERIF_C08_AF", "") == "1"
 BIG = 2 ** 31
 
 
@@ -58,8 +65,14 @@ def run(ctx):
         # the loop without the stale-timer rule must FAIL (its counterexample is a directed scenario); then the timer design
         try:
             box["race"] = ctx.tlc_mc("MC_PeerInput", "MC_PeerInput_race.cfg", timeout=900, workers=2, expect_ok=False)
+            if AF:
+                box["afpark"] = ctx.tlc_mc("MC_PeerInput", "MC_PeerInput_afpark.cfg", timeout=900, workers=2, expect_ok=False)
             race_done.set()
             ctx.tlc_mc("MC_PeerInput", "MC_PeerInput_timer.cfg", timeout=900, workers=3)
+            if AF:
+                ctx.tlc_mc("MC_PeerInput", "MC_PeerInput_af.cfg", timeout=900, workers=3)
+                if not ctx.quick():
+                    ctx.tlc_mc("MC_PeerInput", "MC_PeerInput_af7.cfg", timeout=1800, workers=4)
             if not ctx.quick():
                 ctx.tlc_mc("MC_PeerInput", "MC_PeerInput_timer6.cfg", timeout=1800, workers=4)
         except Exception as ex:  # noqa
@@ -89,9 +102,10 @@ def run(ctx):
     def lead_of():
         asis_done.wait()
         race_done.wait()
-        if "asis" not in box or "race" not in box:
+        if "asis" not in box or "race" not in box or (AF and "afpark" not in box):
             raise mc_err[0] if mc_err else vlib.MachineryError("as-is / race model check did not run")
-        return parse_lead(ctx, "asis_lead", *box["asis"]), parse_lead(ctx, "race_lead", *box["race"], keep=("@fire", "@snub", "@disconnect"))
+        return (parse_lead(ctx, "asis_lead", *box["asis"]), parse_lead(ctx, "race_lead", *box["race"], keep=("@fire", "@snub", "@disconnect")),
+                parse_lead(ctx, "afpark_lead", *box["afpark"], keep=("@fire", "@snub", "@disconnect")) if AF else None)
     try:
         body(ctx, lead_of)
     finally:
@@ -141,14 +155,21 @@ def body(ctx, lead_of):
     fam_len = [c for c in allcls if c.startswith("ext.pex.len.")]      # generated ut_pex families (PeerInput.tla PexLenK / PexRepK)
     fam_rep = [c for c in allcls if c.startswith("ext.pex.rep.")]
     classes = [c for c in allcls if c not in set(fam_len) | set(fam_rep)]   # the hand-written alphabet
+    if not AF:
+        classes = [c for c in classes if c != "allowedfast.all"]
     if len(fam_len) != 5 * 101 or len(fam_rep) != 90:
         raise vlib.MachineryError("ut_pex families: %d length classes, %d repeat classes" % (len(fam_len), len(fam_rep)))
-    lead, race = lead_of()
+    lead, race, afpark = lead_of()
     if not any(m["cls"] == "@snub" for m in race["h"]):
         raise vlib.MachineryError("the race counterexample does not deliver a timer event: %s" % race)
+    afc = [m["cls"] for m in afpark["h"]] if AF else []
+    if AF and not ("@snub" in afc and "choke" in afc and any(c.startswith("allowedfast.") for c in afc)):
+        raise vlib.MachineryError("the afpark counterexample is not an allowed-fast download hit by choke + timer event: %s" % afpark)
 
     # ---- 2. scenarios
     gen = [g for g in gen if "h" in g and g["h"]]
+    if not AF:
+        gen = [g for g in gen if g.get("role") != "afsource" and not any(m["cls"] == "allowedfast.all" for m in g["h"])]
     seen, scen = set(), []
 
     def add(lab, npe, h, kind):
@@ -184,6 +205,26 @@ def body(ctx, lead_of):
         add("down", 1, M(src, "unchoke", "@fire", "choke", "@snub", "unchoke", "@fire", "@snub", "choke", "unchoke"), "timer")
         add("down", 1, M("unchoke", src, "@fire", "choke", "@disconnect", "@snub"), "timer")
     add("down", 1, M("allowedfast.in0", "bitfield.full", "@fire", "choke", "@snub", "unchoke"), "timer")      # allowed-fast download while choked
+    # ---- allowed-fast downloads (round 3): every piece granted, so whatever rain picks from the (still choking) attacker is an
+    #      allowed-fast download; choke / unchoke around it, a block of it (piece.alljunk: block 0 of every piece) re-arms the
+    #      real timer, then silence until it expires (@wait / @at) or the injected hand-over (@fire .. @snub)
+    if AF:
+        add(afpark["lab"], afpark["npe"], afpark["h"], "lead")         # the counterexample of the choke handler that parks such a download
+        add("stopping", 1, afpark["h"], "lead")
+        for src in ("bitfield.full", "haveall"):
+            add("down", 1, M("allowedfast.all", src, "choke", "unchoke", "piece.alljunk", "@wait"), "timer")
+            add("down", 1, M("allowedfast.all", src, "@fire", "choke", "unchoke", "@snub", "choke", "unchoke"), "timer")
+        add("down", 1, M("allowedfast.all", "bitfield.full", "unchoke", "choke", "piece.alljunk", "@wait", "unchoke"), "timer")
+        add("down", 1, M("allowedfast.all", "bitfield.full", "choke", "@wait", "unchoke", "piece.alljunk", "@wait", "choke"), "timer")
+        add("down", 1, M("allowedfast.all", "bitfield.full", "@fire", "choke", "@snub", "unchoke", "piece.alljunk", "@fire", "choke", "unchoke", "@snub"), "timer")
+        add("down", 1, M("unchoke", "allowedfast.all", "bitfield.full", "choke", "unchoke", "piece.alljunk", "@wait", "choke", "unchoke"), "timer")
+        add("down", 2, M("allowedfast.all", "bitfield.full", "choke", "unchoke", "piece.alljunk") + M("allowedfast.all", "haveall", "@fire", "choke", "unchoke", pe=2)
+            + M("@wait") + M("@snub", pe=2), "timer")
+        aoffs = [-400, -50, 0, 50, 400, 3000]
+        rng.shuffle(aoffs)
+        for k, us in enumerate(aoffs[:ctx.pick(2, len(aoffs))]):
+            tail = [("choke", "unchoke"), ("unchoke", "choke"), ("choke", "unchoke", "piece.alljunk", "@wait")][k % 3]
+            add("down", 1, M("allowedfast.all", "bitfield.full", "choke", "unchoke", "piece.alljunk", "@at:%d" % us, *tail), "timer")
     add("down", 1, M("bitfield.full", "unchoke", "@fire", "piece.unreq", "@snub", "choke"), "timer")
     add("down", 1, M("bitfield.full", "unchoke", "@fire", "reject.all", "@snub", "choke"), "timer")
     add("down", 2, M("bitfield.full", "unchoke", "@fire", "choke") + M("bitfield.full", "unchoke", "@fire", pe=2) + M("@snub") + M("choke", "@snub", pe=2), "timer")
